@@ -158,6 +158,9 @@ type WorkerOut struct {
 	ViolBySig     map[string]int64
 	Done          bool
 	Broken        string
+	// Digests: scenario key -> digest, merged by the parent; a key seen with two digests is a
+	// cross-process non-determinism (C15)
+	Digests map[string]string
 }
 
 type Worker struct {
